@@ -43,6 +43,7 @@ import Ymq.Lemmas.PolyTree
 import Ymq.Lemmas.PolyRootsEval
 import Ymq.Lemmas.PolyBarrett
 import Ymq.Lemmas.PolyMont
+import Ymq.Lemmas.PolyMontFin
 
 namespace Ymq.C10
 open Ymq.PolySpec
@@ -1205,6 +1206,43 @@ theorem roots_eval_mont (n kw rinv : Nat) (hn : 1 < n) (hR : 2 ^ (64 * kw) * rin
         mphi n rinv (vals.getD j 0) = (a.map fun r => mphi n rinv (b.getD j 0) - mphi n rinv r).prod := by
   haveI : Fact (1 < n) := ⟨hn⟩
   exact roots_eval_spec (montOps_homC n kw rinv (by omega) hR) a b ha1 hb2 hb61 hinv
+
+/-- **The Montgomery operations on reduced residues** (`montFin : Ops (Fin n)`: the same operations as `montOps`,
+on the type of integers `< n` — `MInt`s are reduced by construction, here by typing) are an instance of the
+coefficient operations of every arith_poly theorem (`HomC`, `x ↦ x·R⁻¹`). -/
+theorem mont_fin_hom (n kw rinv : Nat) (hn : 0 < n) (hR : 2 ^ (64 * kw) * rinv % n = 1 % n) :
+    HomC (montFin n kw rinv hn) (fun x => mphi n rinv x.val) :=
+  montFin_homC n kw rinv hn hR
+
+/-- **The production path of arith_poly, end to end: the exact product step of the models IS the code's
+`_fft_longmul` over the word-level `convolve_modn_ntt`, ON EVERY INPUT.** For the Montgomery operations on
+reduced residues, `n > 0` of at most 512 bits, `k ≤ 31`, the `MultiZmodP` built by the model of `new(zn, k)`
+and its root tables: for ALL output lengths and ALL operand lists (no size or shape hypothesis: when the
+code's checks fail — empty operand, `logsize = 0`, `mzp.k < logsize` — both sides are the same panic),
+`fftLongmul k montFin zlen p q`, the step every arith_poly model calls on the NTT branch of `_longmul`, equals
+`wordLongmul` = `_fft_longmul` as coded over the word-level model of `convolve_modn_ntt`
+(`convolve_modn_ntt_spec`). Since the two functions are extensionally equal, every theorem about a model that
+calls this step (`_longmul` in `mergeMonic`/`_product_tree`/`from_roots`, the Newton steps of `_inv_mod_xn`/
+`_div_mod_xn`, the Barrett loop of `roots_eval`), instantiated at `montFin` by `mont_fin_hom`, is a theorem
+about the composition with the word-level transform: the production path is covered without any assumption
+on the NTT. -/
+theorem fft_longmul_word_eq (n kw rinv : Nat) (hn : 0 < n) (k : Nat) (m : Ymq.Crt.Mzp)
+    (hm : Ymq.Crt.new n k = some m) (hbits : Ymq.Checked.bitlen n ≤ 512) (hk31 : k ≤ 31)
+    (rts : List (List (List Nat))) (hrts : Ymq.Crt.rootsPacked m = some rts) (zlen : Nat) (p q : List (Fin n)) :
+    (fftLongmul k (montFin n kw rinv hn) zlen p q).map (·.map Fin.val) =
+      wordLongmul m rts rinv zlen (p.map Fin.val) (q.map Fin.val) :=
+  fftLongmul_word_eq k m hm hbits hk31 rts hrts zlen p q
+
+/-- **The same for the middle-product step**: `fftMidmul k montFin zlen p q`, called by the models on both NTT
+shortcuts of `_middlemul` (hence inside `_inv_mod_xn`, `_div_mod_xn`, `_multi_eval`, `multi_eval`,
+`roots_eval`), equals on every input `wordMidmul` = `_fft_midmul` as coded (`assert!` on the power of two
+and on `|p| = 2|q| - 1`, `convolve_modn_ntt(mzp, 2|q|, p, q, z, |q| - 1)`) over the word-level model. -/
+theorem fft_midmul_word_eq (n kw rinv : Nat) (hn : 0 < n) (k : Nat) (m : Ymq.Crt.Mzp)
+    (hm : Ymq.Crt.new n k = some m) (hbits : Ymq.Checked.bitlen n ≤ 512) (hk31 : k ≤ 31)
+    (rts : List (List (List Nat))) (hrts : Ymq.Crt.rootsPacked m = some rts) (zlen : Nat) (p q : List (Fin n)) :
+    (fftMidmul k (montFin n kw rinv hn) zlen p q).map (·.map Fin.val) =
+      wordMidmul m rts rinv zlen (p.map Fin.val) (q.map Fin.val) :=
+  fftMidmul_word_eq k m hm hbits hk31 rts hrts zlen p q
 
 end Production
 
